@@ -10,6 +10,7 @@ META = {
     "level": "Decides the structural clauses: slots are threaded through nested groups so no two conditions share a slot and OP/CP balance; `&` concatenates chart conditions (Bugzilla ANDs top-level charts) and any_of refuses simple parameters; batching splits exactly one axis, rebuilds the query by replacing only that axis (by key for the unique simple keys, by index for charts), keeps value order, charges each value its separator, and measures the fixed part from the query rendered without the split values. Reports as a known finding that `&` UNIONS the values of a simple key present on both sides (Bugzilla ORs within a key), which is not the conjunction. Does NOT evaluate rendered charts.",
     "note": "",
 }
+META["technique"] += "; " + 'generic pack G on the anchored files (optional-flag shift, closures outliving a loop iteration, single-pass iterables consumed twice, %-templates built from data, in-place writes to class-level / memoised objects, generators mutating what they yielded, memo keys that are projections)'
 MOD = "pkgcore.bugzilla.query"
 
 
